@@ -131,15 +131,20 @@ Expect ==
             the RETURNED bin specifications describe *)
          LET tree == TreeOf(Ev.cols, Ev.specs, Ev.dts) IN
          X(Ev.t, FALSE, MakeHist(Ev.rows, Ev.cols, Ev.specs, Ev.dts), tree, TRUE, TRUE, "strip")
+    (* an aggregator that came out of JSON (or has such parts: ~p.mut) refuses to be filled, or parts of it do: a fill
+       of it may raise (and then changes nothing); when it does not raise it fills like any other *)
     [] op = "Fill" ->
          LET p == pool[Ev.s] IN
-         X(Ev.s, SharedFillable(p.d) \/ Raises(p.c, p.d, Ev.x, Ev.w), Fill(p.c, p.d, Ev.x, Ev.w), p.d, p.mut, FALSE, "det")
+         [X(Ev.s, SharedFillable(p.d) \/ Raises(p.c, p.d, Ev.x, Ev.w), Fill(p.c, p.d, Ev.x, Ev.w), p.d, p.mut, FALSE, "det")
+            EXCEPT !.may = ~p.mut]
     [] op \in {"FillNoW", "Increment"} ->
          LET p == pool[Ev.s] IN
-         X(Ev.s, SharedFillable(p.d) \/ Raises(p.c, p.d, Ev.x, Q(1)), Fill(p.c, p.d, Ev.x, Q(1)), p.d, p.mut, FALSE, "det")
+         [X(Ev.s, SharedFillable(p.d) \/ Raises(p.c, p.d, Ev.x, Q(1)), Fill(p.c, p.d, Ev.x, Q(1)), p.d, p.mut, FALSE, "det")
+            EXCEPT !.may = ~p.mut]
     [] op = "FillNumpy" ->
          LET p == pool[Ev.s] IN
-         X(Ev.s, SharedFillable(p.d), FoldFill(p.c, p.d, Ev.rows, NumpyWs), p.d, p.mut, FALSE, "strip")
+         [X(Ev.s, SharedFillable(p.d), FoldFill(p.c, p.d, Ev.rows, NumpyWs), p.d, p.mut, FALSE, "strip")
+            EXCEPT !.may = ~p.mut]
     [] op \in {"Add", "Combine"} ->
          (* the merge MUST be refused when even what the operands know about themselves conflicts (CompatD on d),
             MUST succeed when their true structures agree (CompatD on dt), and in between - a reloaded operand whose
